@@ -1,4 +1,5 @@
 import CqlVerif.Lemmas.Core
+import CqlVerif.Lemmas.CoreLive
 import CqlVerif.Lemmas.Retry
 /-!
 # C01 — Exactly one response per client request, on the request's own stream
@@ -6,9 +7,13 @@ import CqlVerif.Lemmas.Retry
 Model: `Model/Core.lean` — any number of clients, requests, hosts, connections and streams; every
 interleaving of the atomic handler steps (`Act` lists of any length), every backend outcome,
 connection deaths at any point, stale pending entries left behind by failed writes, duplicate
-close notifications. Safety ("never two", "on its own stream") is proved outright; the liveness
-half ("never none") is proved for the single-request life-cycle (`Model/Retry.lean`) and is
-otherwise covered by the correspondence streams (see DESIGN.md §5 C01).
+close notifications. Safety ("never two", "on its own stream") is proved outright.  The liveness half ("never none")
+is proved as a safety invariant of the same concurrent model (`unanswered_is_owned`: a request
+without an answer always has a backend frame on the wire of a live connection or a close
+notification still due, so `quiescent_all_answered`: once nothing is in flight every request has
+its answer) and, for the single-request life-cycle, as termination (`Model/Retry.lean`).  That the
+backend answers what is on a live wire, and that `Closing` and its notifications do run, are the
+runtime's part; the correspondence streams exercise them (DESIGN.md §5 C01).
 -/
 namespace CqlVerif.C01
 open CqlVerif.Core
@@ -46,12 +51,64 @@ theorem answered_when_attempts_answered (down : Nat → Retry.Host → Bool) (id
     simpa using hlen
   exact ⟨hd, Retry.done_has_reply down script .next _ (by simp) hd⟩
 
+/-- **unanswered_is_owned** — in every reachable state, whatever the interleaving, the connection
+deaths, the failed writes and the recycling of stream ids: a request that has not been answered is
+owned — a frame sent on its behalf (the request itself or a re-prepare for it) is on the wire of a
+live backend connection, or is registered on a dead connection whose `Closing` has yet to run, or
+an `OnClose` notification for it is still due.  No handler lets a request slip out of all three. -/
+theorem unanswered_is_owned (as : List Act) (r : Nat) (hr : r < (run as).nreq) :
+    ((run as).req r).done = true ∨ Owned (run as) r :=
+  (reachable_live as).1 r hr (by simp)
+
+/-- what "nothing is in flight" means: every connection ever opened has an empty wire, has run
+`Closing` if it is dead, and has delivered all its close notifications -/
+def Quiescent (s : St) : Prop :=
+  ∀ c, c < s.nconn → (s.conn c).wire = [] ∧ ((s.conn c).dead = true → (s.conn c).notified = true) ∧ (s.conn c).toNotify = []
+
+/-- **quiescent_all_answered** — once nothing is in flight, every request the proxy accepted has
+been answered, exactly once -/
+theorem quiescent_all_answered (as : List Act) (hq : Quiescent (run as)) (r : Nat) (hr : r < (run as).nreq) :
+    cnt (run as).out r = 1 := by
+  have hl := reachable_live as
+  rcases unanswered_is_owned as r hr with hd | ⟨c, e, _, hc⟩
+  · exact (replies_le_one as r).2.mpr ⟨hr, hd⟩
+  · exfalso
+    by_cases hcn : c < (run as).nconn
+    · obtain ⟨h1, h2, h3⟩ := hq c hcn
+      rcases hc with hc | ⟨_, hd, hn⟩ | hc
+      · rw [h1] at hc; cases hc
+      · rw [h2 hd] at hn; cases hn
+      · rw [h3] at hc; cases hc
+    · have hu := (hl.2 c).unused (Nat.le_of_not_lt hcn)
+      rcases hc with hc | ⟨hp, _, _⟩ | hc
+      · rw [hu.2.1] at hc; cases hc
+      · rw [hu.1] at hp; cases hp
+      · rw [hu.2.2.1] at hc; cases hc
+
+/-- the registration guard matters: a send accepted on a connection leaves the request owned only
+because `closing` (set together with the hand-over to the notifier) refuses late registrations -/
+theorem accepted_send_is_owned (as : List Act) (c : ConnId) (hd : Handle) (w : Bool)
+    (hok : (sendTo (run as) c hd w).2 = true) : Owned (sendTo (run as) c hd w).1 hd.rid :=
+  (sendTo_good (run as) c hd w (reachable_live as).2).2.2 hok
+
 /-- non-vacuity: two hosts, an idempotent request in flight on host 0 whose connection dies; it
 fails over to host 1, whose answer is delivered — once. -/
 example :
     let s := run [.connect 0 0 4, .connect 1 0 4, .clientReq 7 3 true [0, 1] [], .connDead 0, .closing 0, .notifyNext 0 [],
                   .backendReply 1 0 .success [], .closing 0, .notifyNext 0 []]
     s.out.map (fun e => (e.rid, e.client, e.cstream)) = [(0, 7, 3)] := by
+  decide
+
+/-- non-vacuity of `Quiescent`: that final state is quiescent (and has a request); the state just
+before host 1 answers is not -/
+example :
+    let s := run [.connect 0 0 4, .connect 1 0 4, .clientReq 7 3 true [0, 1] [], .connDead 0, .closing 0, .notifyNext 0 [],
+                  .backendReply 1 0 .success [], .closing 0, .notifyNext 0 []]
+    s.nreq = 1 ∧ s.nconn = 2 ∧ ∀ c, c < 2 → (s.conn c).wire = [] ∧ ((s.conn c).dead = true → (s.conn c).notified = true) ∧ (s.conn c).toNotify = [] := by
+  decide
+example :
+    let s := run [.connect 0 0 4, .connect 1 0 4, .clientReq 7 3 true [0, 1] [], .connDead 0, .closing 0, .notifyNext 0 []]
+    (s.conn 1).wire ≠ [] ∧ (s.req 0).done = false := by
   decide
 
 end CqlVerif.C01
